@@ -521,6 +521,7 @@ func main() {
 	// 3. classify
 	violations := 0
 	inconclusive := 0
+	transient := 0
 	extraFailures := 0
 	var lines []string
 	known := readKnownFindings()
@@ -680,9 +681,25 @@ func main() {
 				lines = append(lines, fmt.Sprintf("VIOLATION property=%s replay=%s", *property, path))
 				lines = append(lines, "  "+firstViolationLine(r.log))
 			} else {
-				inconclusive++
 				_ = os.Remove(path)
-				lines = append(lines, fmt.Sprintf("INCONCLUSIVE: %s shard %d reported a failure that did not reproduce from its replay file; log %s", r.check.Test, r.shard, filepath.Join(workDir, fmt.Sprintf("%s.%d.log", r.check.Test, r.shard))))
+				// Not reproducible from the saved case. Before calling the run inconclusive, the shard is run
+				// again from the start (same seed, so the same cases): a failure that was an accident of the
+				// moment (a starved machine tripping the hang detector, say) does not come back, one that
+				// belongs to the tree does.
+				logPath := filepath.Join(workDir, fmt.Sprintf("%s.%d.log", r.check.Test, r.shard))
+				firstLog := filepath.Join(workDir, fmt.Sprintf("%s.%d.first-attempt.log", r.check.Test, r.shard))
+				_ = os.WriteFile(firstLog, []byte(r.log), 0o644)
+				rr := runShard(b, r.check, r.shard, jobChecks(jobs, r), seed, *tier, workDir, timeout)
+				if rr.exit == 0 && !rr.timedOut && (!r.check.Rapid || rr.passed >= jobChecks(jobs, r)) {
+					transient++
+					if r.check.Rapid {
+						passed += int64(rr.passed - r.passed)
+					}
+					lines = append(lines, fmt.Sprintf("NOTE: %s shard %d failed once in a way that did not reproduce from its saved case and passed completely when run again (first attempt: %s)", r.check.Test, r.shard, firstLog))
+				} else {
+					inconclusive++
+					lines = append(lines, fmt.Sprintf("INCONCLUSIVE: %s shard %d reported a failure that did not reproduce from its replay file, and failed again when the shard was run again; log %s", r.check.Test, r.shard, logPath))
+				}
 			}
 		}
 	}
@@ -783,6 +800,7 @@ func main() {
 			"requested_rapid_cases":           requested,
 			"rapid_passed":                    passed,
 			"inconclusive_events":             inconclusive,
+			"transient_shard_failures":        transient,
 			"known_findings_hit":              keysB(knownHit),
 			"fuzz":                            fuzzEvidence,
 		},
